@@ -70,6 +70,8 @@ def run_case(case, rng):
             pass
 
         def end_of_timestep(self, lv):
+            if state.get("warmup"):
+                return
             s, a, r, ns = lv["s"], lv["a"], lv["r"], lv["ns"]
             case.count("steps_validated")
             state["ep_steps"] += 1
@@ -86,6 +88,8 @@ def run_case(case, rng):
             exp.append((s, a, r, ns))
 
         def end_of_episode(self, lv):
+            if state.get("warmup"):
+                return
             state["ep_steps"] = 0
             state["episodes"] += 1
             case.count("episodes_observed")
@@ -95,7 +99,23 @@ def run_case(case, rng):
 
     learner = RMAX(episodes=episodes, rmax=rmax, num_transition_samples=m, bellman_convergence_diff=tolv,
                    seed=seed, event_listener_class=Probe)
-    res = case.call("RMAX.train_on", learner.train_on, mdp)
+    if rng.random() < 0.25:
+        # the same learner object is first trained on another problem (different size); nothing may leak
+        sib = G.random_spec(rng, "proper", n_max=4, a_max=len(A), uniform_actions=True, allow_implicit=False,
+                            gamma=gamma, allow_dup_actions=False)
+        G.restrict_to_closure(sib, rng)
+        sib.init = [(s, p) for s, p in sib.init if p > 0]
+        sib_mdp = Bd.build(sib, "subclass")
+        learner.rmax = float(np.max(sib_mdp.reward_matrix))
+        state["warmup"] = True
+        case.call("RMAX.train_on(sibling)", learner.train_on, sib_mdp, facts=dict(reuse=True))
+        state.update(ep_steps=0, prev=None, episodes=0, warmup=False)
+        exp.clear()
+        learner.rmax = rmax
+        case.count("learner_reused")
+        res = case.call("RMAX.train_on", learner.train_on, mdp, facts=dict(reuse=True))
+    else:
+        res = case.call("RMAX.train_on", learner.train_on, mdp)
     if res is case.FAIL:
         return
     Q = res.q_values
